@@ -141,21 +141,29 @@ package dutydb
 //@ ensures r1 == nil ==> ncalls("*.Clone") == 1
 //@ callreq db.resolveProQueriesUnsafe: len(db.proQueries) >= 1 && db.proQueries[len(db.proQueries)-1].Key == slot && db.proQueries[len(db.proQueries)-1].Response == response && db.proQueries[len(db.proQueries)-1].Cancel == cancel
 //@ ensures ncalls(db.resolveProQueriesUnsafe) == 1
+// registration is Await's only critical section: a waiter that gives up (cancel, shutdown) leaves the pending lists alone
+//@ ensures ncalls(db.mu.Lock) == 1
 
 //@ func (db *MemDB) AwaitAttestation
 //@ props C06 C18
 //@ ensures r1 == nil ==> ncalls("*.MarshalSSZ") == 1 && ncalls("*.UnmarshalSSZ") == 1 && r0 == clone
 //@ callreq db.resolveAttQueriesUnsafe: len(db.attQueries) >= 1 && db.attQueries[len(db.attQueries)-1].Key == attKey{Slot: slot, CommIdx: commIdx} && db.attQueries[len(db.attQueries)-1].Response == response && db.attQueries[len(db.attQueries)-1].Cancel == cancel
 //@ ensures ncalls(db.resolveAttQueriesUnsafe) == 1
+// registration is Await's only critical section: a waiter that gives up (cancel, shutdown) leaves the pending lists alone
+//@ ensures ncalls(db.mu.Lock) == 1
 
 //@ func (db *MemDB) AwaitAggAttestation
 //@ props C06 C18
 //@ ensures r1 == nil ==> ncalls("*.Clone") == 1
 //@ callreq db.resolveAggQueriesUnsafe: len(db.aggQueries) >= 1 && db.aggQueries[len(db.aggQueries)-1].Key == aggKey{Slot: slot, Root: attestationRoot, CommitteeIndex: committeeIndex} && db.aggQueries[len(db.aggQueries)-1].Response == response && db.aggQueries[len(db.aggQueries)-1].Cancel == cancel
 //@ ensures ncalls(db.resolveAggQueriesUnsafe) == 1
+// registration is Await's only critical section: a waiter that gives up (cancel, shutdown) leaves the pending lists alone
+//@ ensures ncalls(db.mu.Lock) == 1
 
 //@ func (db *MemDB) AwaitSyncContribution
 //@ props C06 C18
 //@ ensures r1 == nil ==> ncalls("*.MarshalSSZ") == 1 && ncalls("*.UnmarshalSSZ") == 1 && r0 == clone
 //@ callreq db.resolveContribQueriesUnsafe: len(db.contribQueries) >= 1 && db.contribQueries[len(db.contribQueries)-1].Key == contribKey{Slot: slot, SubcommIdx: subcommIdx, Root: beaconBlockRoot} && db.contribQueries[len(db.contribQueries)-1].Response == response && db.contribQueries[len(db.contribQueries)-1].Cancel == cancel
 //@ ensures ncalls(db.resolveContribQueriesUnsafe) == 1
+// registration is Await's only critical section: a waiter that gives up (cancel, shutdown) leaves the pending lists alone
+//@ ensures ncalls(db.mu.Lock) == 1
